@@ -276,6 +276,72 @@ def validate_batcher(chk: Check, rng: common.Rng, thorough: bool) -> list[dict]:
     return bad
 
 
+# ----------------------------------------------------------------------------- H: the reduction batch rule
+
+
+def validate_reduction_rule(chk: Check, rng: common.Rng, thorough: bool) -> list[dict]:
+    """The real `register_reduction_batch_rule` (installed on a stub primitive whose impl records what it
+    is bound to and reduces with jnp.sum) against `reductionBatchRule` / `reduceShape`: shape of the bound
+    operand, bound axes, reported batch dim, and the shape of the result."""
+    import jax
+    import jax.numpy as jnp
+    from jax.extend.core import Primitive
+    from jax._src.interpreters import batching as jb
+    from jax2onnx.plugins.jax.numpy._reduction_utils import register_reduction_batch_rule
+    rec: dict = {}
+    prim = Primitive("verif.stub_reduce")
+
+    def impl(operand, *, axes=None, axes_is_tuple=False, keepdims=False, **kw):
+        rec["shape"] = tuple(operand.shape)
+        rec["axes"] = None if axes is None else tuple(int(a) for a in axes)
+        return jnp.sum(operand, axis=rec["axes"], keepdims=keepdims)
+    prim.def_impl(impl)
+    register_reduction_batch_rule(prim, None)
+    rule = jb.fancy_primitive_batchers[prim]
+    shapes = [(4, 3), (2, 4, 3), (3,), (2, 1, 5), (1, 3), (2, 3, 4, 5)]
+    cases = []
+    for pe in shapes:
+        r = len(pe)
+        axes_opts = [None] + [(a,) for a in range(-r, r)] + ([(0, r - 1)] if r >= 2 else []) + \
+                    ([(-1, 0)] if r >= 2 else []) + [tuple(range(r))]
+        for bdim in range(r + 1):
+            for axes in axes_opts:
+                for kd in (False, True):
+                    for B in ((2,) if not thorough else (1, 2)):
+                        cases.append((pe, bdim, axes, kd, B))
+    if not thorough:
+        cases = [c for i, c in enumerate(cases) if i % 3 == rng.randint(0, 2) or c[3]]
+    lines, meta = [], []
+    for pe, bdim, axes, kd, B in cases:
+        full = pe[:bdim] + (B,) + pe[bdim:]
+        x = jnp.asarray(np.arange(int(np.prod(full)), dtype=np.float32).reshape(full))
+        rec.clear()
+        try:
+            out, od = rule(None, (x,), (bdim,), axes=axes, axes_is_tuple=axes is not None, keepdims=kd)
+            real = f"{'x'.join(map(str, rec['shape']))} {','.join(map(str, rec['axes']))} {od}"
+            # the result the rule returns, and what vmap semantics demands: per-example reduction, batch at `od`
+            want = np.stack([np.sum(np.take(np.asarray(x), b, axis=bdim), axis=axes, keepdims=kd) for b in range(B)],
+                            axis=od if isinstance(od, int) and od <= np.ndim(out) - 1 else 0)
+            ok_val = tuple(np.shape(out)) == want.shape and bool(np.array_equal(np.asarray(out), want))
+        except Exception as e:
+            real, ok_val = f"raises {type(e).__name__}", False
+        lines.append(f"red {'x'.join(map(str, full))} {bdim} {'none' if axes is None else ','.join(map(str, axes))}")
+        meta.append((pe, bdim, axes, kd, B, real, ok_val, tuple(np.shape(out)) if "out" in dir() else None))
+    ans = common.run_driver("C10", lines)
+    bad = []
+    for (pe, bdim, axes, kd, B, real, ok_val, oshape), a in zip(meta, ans):
+        chk.count({"stage": "reduction_rule", "per_example_shape": list(pe), "bdim": bdim,
+                   "axes": None if axes is None else list(axes), "keepdims": kd, "real": real}, nontrivial=True,
+                  sample_every=150)
+        if a != real or not ok_val:
+            bad.append({"per_example_shape": list(pe), "batch_size": B, "bdim": bdim,
+                        "axes": None if axes is None else list(axes), "keepdims": kd, "real_bound_to": real,
+                        "model": a, "result_is_per_example_reduction": ok_val})
+    chk.info("reduction_rule_correspondence", {"cases": len(lines), "disagreements": len(bad)})
+    chk.add("traces_validated_against_impl", len(lines))
+    return bad
+
+
 # ----------------------------------------------------------------------------- exploration
 
 
@@ -316,6 +382,21 @@ def fn_catalogue():
         ("softmax", lambda x: jax.nn.softmax(x, axis=-1), [A(4, 3)]),
         ("log_softmax", lambda x: jax.nn.log_softmax(x, axis=-1), [A(4, 3)]),
         ("softplus", lambda x: jax.nn.softplus(x), [A(4, 3)]),
+        ("divide", lambda x, y: jnp.divide(x, y + 3.0), [A(4, 3), A(4, 3)]),
+        ("subtract", lambda x, y: jnp.subtract(x, y * 2.0), [A(4, 3), A(4, 3)]),
+        ("power", lambda x, y: jnp.power(jnp.abs(x) + 1.5, y), [A(4, 3), A(4, 3)]),
+        ("atan2", lambda x, y: jnp.arctan2(x, y + 3.0), [A(4, 3), A(4, 3)]),
+        ("maximum_const_first", lambda y: jnp.maximum(0.25, y), [A(4, 3)]),
+        ("power_const_base", lambda y: jnp.power(2.0, y), [A(4, 3)]),
+        ("divide_const_first", lambda y: jnp.divide(1.5, y + 3.0), [A(4, 3)]),
+        ("three_operands", lambda x, y, z: jnp.where(x > 0, jnp.divide(x, y + 3.0), jnp.subtract(z, y)),
+         [A(4, 3), A(4, 3), A(4, 3)]),
+    ] + [
+        (f"{rn}_axis{('N' if ax is None else ax)}_{'keep' if kd else 'drop'}",
+         (lambda x, rf=rf, ax=ax, kd=kd: rf(x, axis=ax, keepdims=kd)), [A(4, 3)])
+        for rn, rf in (("sum", jnp.sum), ("max", jnp.max), ("min", jnp.min), ("mean", jnp.mean), ("amax", jnp.amax))
+        for ax in (0, -1, None) for kd in (False, True)
+    ] + [
         ("mlp", lambda x, w: jnp.tanh(jnp.matmul(x, w)) * jnp.sum(x, axis=-1, keepdims=True), [A(4, 3), A(3, 3)]),
     ]
     return cat
@@ -421,6 +502,47 @@ def transformations():
         g.defvjp(fwd, bwd)
         return jax.grad(scalarize(g)), [None] * n
 
+    def T_grad_last(f, n):           # only the LAST operand is differentiated (non-prefix argnums)
+        if n < 2:
+            return None
+        return jax.grad(scalarize(f), argnums=n - 1), [None] * n
+
+    def T_grad_all(f, n):
+        if n < 2:
+            return None
+        return jax.grad(scalarize(f), argnums=tuple(range(n))), [None] * n
+
+    def T_grad_first_last(f, n):     # non-contiguous subset
+        if n < 3:
+            return None
+        return jax.grad(scalarize(f), argnums=(0, n - 1)), [None] * n
+
+    def T_jvp_last(f, n):            # the other operands are closed over (symbolic-zero tangents)
+        if n < 2:
+            return None
+
+        def h(*a):
+            return jax.jvp(lambda y: f(*a[:-1], y), (a[-1],), (jnp.ones_like(a[-1]) * 0.25,))
+        return h, [None] * n
+
+    def T_vjp_last(f, n):
+        if n < 2:
+            return None
+
+        def h(*a):
+            y, pull = jax.vjp(lambda q: f(*a[:-1], q), a[-1])
+            return pull(jnp.ones_like(y) * 0.5)
+        return h, [None] * n
+
+    def T_vmap_in2(f, n):            # batch axis last on the first operand
+        return jax.vmap(f, in_axes=(2,) + (0,) * (n - 1)), [2] + [0] * (n - 1)
+
+    def T_vmap_in1_out1(f, n):
+        return jax.vmap(f, in_axes=(1,) + (0,) * (n - 1), out_axes=-1), [1] + [0] * (n - 1)
+
+    def T_vmap_in2_out0(f, n):
+        return jax.vmap(f, in_axes=2, out_axes=0), [2] * n
+
     def T_vmap_grad(f, n):
         return jax.vmap(jax.grad(scalarize(f))), [0] * n
 
@@ -433,7 +555,11 @@ def transformations():
             ("jit_called_twice", T_jit_twice), ("grad", T_grad), ("value_and_grad", T_value_and_grad),
             ("jvp", T_jvp), ("vjp", T_vjp), ("checkpoint", T_checkpoint), ("grad_checkpoint", T_grad_checkpoint),
             ("custom_jvp", T_custom_jvp), ("grad_custom_jvp", T_grad_custom_jvp), ("custom_vjp", T_custom_vjp),
-            ("grad_custom_vjp", T_grad_custom_vjp), ("vmap_grad", T_vmap_grad), ("jit_vmap", T_jit_vmap)]
+            ("grad_custom_vjp", T_grad_custom_vjp), ("vmap_grad", T_vmap_grad), ("jit_vmap", T_jit_vmap),
+            ("grad_argnums_last", T_grad_last), ("grad_argnums_all", T_grad_all),
+            ("grad_argnums_first_last", T_grad_first_last), ("jvp_wrt_last", T_jvp_last), ("vjp_wrt_last", T_vjp_last),
+            ("vmap_in_axes_2", T_vmap_in2), ("vmap_in_axes_1_out_last", T_vmap_in1_out1),
+            ("vmap_in_axes_2_all", T_vmap_in2_out0)]
 
 
 def family_of(tname: str) -> str:
@@ -522,7 +648,17 @@ def explore(chk: Check, rng: common.Rng, thorough: bool, budget_s: float) -> lis
         tn = {t[0]: i for i, t in enumerate(trs)}
         for fn, t in [("tanh", "jit_called_twice"), ("mlp", "jit_nested"), ("minimum_lowrank", "vmap_in_axes_none_last"),
                       ("minimum", "vmap_in_axes_1"), ("add_bcast", "vmap_in_axes_none_last"),
-                      ("matmul", "grad"), ("softmax", "vmap_out_axes_last"), ("maximum_scalar", "vmap_in_axes_none_last")]:
+                      ("matmul", "grad"), ("softmax", "vmap_out_axes_last"), ("maximum_scalar", "vmap_in_axes_none_last"),
+                      # a non-differentiated operand in front of a differentiated one, asymmetric functions
+                      ("divide", "grad_argnums_last"), ("power", "grad_argnums_last"), ("atan2", "jvp_wrt_last"),
+                      ("subtract", "vjp_wrt_last"), ("three_operands", "grad_argnums_first_last"),
+                      ("three_operands", "grad_argnums_last"), ("maximum_const_first", "grad"),
+                      ("power_const_base", "grad"), ("divide_const_first", "jvp"),
+                      # reductions: non-leading batch axis x reduced axis in front of it x keepdims
+                      ("sum_axis0_keep", "vmap_in_axes_1"), ("sum_axisN_keep", "vmap_in_axes_2"),
+                      ("max_axis0_keep", "vmap_in_axes_2"), ("mean_axis0_keep", "vmap_in_axes_1_out_last"),
+                      ("min_axis-1_keep", "vmap_in_axes_1"), ("sum_axis0_drop", "vmap_in_axes_2"),
+                      ("amax_axisN_keep", "vmap_in_axes_1"), ("sum_axis-1_drop", "vmap_in_axes_2_all")]:
             sel.add((names[fn], tn[t]))
         combos = [(cat[ci], trs[ti]) for ci, ti in sorted(sel)]
     results = []
@@ -572,7 +708,16 @@ def run(chk: Check) -> None:
     chk.log(f"Lean done at {time.time() - t0:.1f} s")
     bat_bad = validate_batcher(chk, rng, thorough)
     chk.log(f"batcher correspondence done at {time.time() - t0:.1f} s")
+    red_bad = validate_reduction_rule(chk, rng, thorough)
+    chk.log(f"reduction-rule correspondence done at {time.time() - t0:.1f} s")
     found = False
+    if red_bad:
+        # a disagreement here IS a concrete failing input of the real rule (operand shape, bdim, axes, keepdims)
+        found = any(not b["result_is_per_example_reduction"] for b in red_bad)
+        chk.violation({"correspondence": "register_reduction_batch_rule differs from the proven model `reductionBatchRule` "
+                                         "(or its result is not the per-example reduction with the batch axis where it says)",
+                       "cases": red_bad[:20], "how": "harness/props/c10.py validate_reduction_rule"},
+                      name="reduction-rule-correspondence", no_failing_input=not found)
     if bat_bad:
         chk.violation({"correspondence": "broadcast_batcher_compat differs from the proven model `broadcastBatcher`",
                        "cases": bat_bad[:20]}, name="batcher-correspondence", no_failing_input=True)
